@@ -123,6 +123,13 @@ def scn(sym, cov, parties, buf, cancel=None, native=False, eager=False, T=1, J=2
                         except ClosedResourceError:
                             cov.hit("closed-send-rejected")
                         try:
+                            extra = tx.clone()
+                            extra.close()
+                            bad("clone-of-closed-handle-accepted")
+                        except ClosedResourceError:
+                            pass
+                        stats_ok("X-after-clone-attempt")
+                        try:
                             await tx.send(i * 10)
                             bad("send-on-closed-handle-accepted")
                         except ClosedResourceError:
@@ -203,6 +210,13 @@ def scn(sym, cov, parties, buf, cancel=None, native=False, eager=False, T=1, J=2
                             bad("receive-on-closed-handle-accepted")
                         except ClosedResourceError:
                             cov.hit("closed-receive-rejected")
+                        try:
+                            extra = rx.clone()
+                            state["leaked_clone"] = extra  # kept open on purpose: a mutant's clone keeps the side open
+                            bad("clone-of-closed-handle-accepted")
+                        except ClosedResourceError:
+                            pass
+                        stats_ok("Y-after-clone-attempt")
                         try:
                             await rx.receive()
                             bad("receive-on-closed-handle-accepted")
